@@ -25,10 +25,12 @@ def budget(tier):
 
 
 def gen(R, tier):
-    case = resgen.gen_cut_string(R, tier, min_frags=2, with_levels=R.choice([1, 1, 2, 2, 3]), shared_atoms=R.chance(0.3))
+    coarse_last = R.chance(0.25)
+    case = resgen.gen_cut_string(R, tier, min_frags=2, with_levels=R.choice([1, 1, 2, 2, 3]), shared_atoms=R.chance(0.3),
+                                 virtual_in_levels=0.0 if coarse_last else R.choice([0.0, 0.0, 0.3]))
     if case is None:
         return None
-    if R.chance(0.25):
+    if coarse_last:
         # coarse last level: drop the atomistic block
         s = case['input']
         head = s[:s.rindex('.{')]
